@@ -253,7 +253,7 @@ func TestFaults(t *testing.T) {
 	if os.Getenv("VERIF_OVERSIZE") == "1" {
 		faults = append(faults, "oversize")
 	}
-	faults = append(faults, "halfclose")
+	faults = append(faults, "halfclose", "wfail")
 	only := os.Getenv("VERIF_ONLY_FAULT")
 	for _, fault := range faults {
 		if only != "" && fault != only {
@@ -261,7 +261,7 @@ func TestFaults(t *testing.T) {
 		}
 		for n := 0; n <= 4; n++ {
 			for ans := 0; ans <= n; ans++ {
-				if fault == "halfclose" {
+				if fault == "halfclose" || fault == "wfail" {
 					// 1..4 calls outstanding, `fully` of them read by the peer, the next blocked mid-write
 					for fully := ans; fully <= n && n > 0; fully++ {
 						cfg := FreeCfg{Callers: n, CallsPer: 1, Seed: seed*137 + int64(n*25+ans*5+fully), Dotu: (n+fully)%2 == 0, ErrPct: 20,
@@ -269,12 +269,12 @@ func TestFaults(t *testing.T) {
 						f := RunFree(t, cfg)
 						rep.Cases++
 						if f.Hang != "" {
-							rep.AddViolation(hangKeyFree("halfclose", f), fmt.Sprintf("%d outstanding, %d read by the peer (next mid-write: %v), %d answered, then the peer ends its sending direction and stops reading: %s",
-								n, fully, fully < n, ans, f.Hang), freeReplay(cfg))
+							rep.AddViolation(hangKeyFree(fault, f), fmt.Sprintf("%d outstanding, %d read by the peer (next mid-write: %v), %d answered, then %s: %s",
+								n, fully, fully < n, ans, map[string]string{"halfclose": "the peer ends its sending direction and stops reading", "wfail": "the client's writes fail while nothing more arrives"}[fault], f.Hang), freeReplay(cfg))
 						} else {
 							judgeFailure(f)
 						}
-						addFree(rep, f, "halfclose:", freeReplay(cfg))
+						addFree(rep, f, fault+":", freeReplay(cfg))
 					}
 					continue
 				}
